@@ -215,6 +215,7 @@ class Interp:
         self.maps = {'R': self.root}        # map id -> MMap
         self.h = {}                         # handle id -> HState
         self.deferred = None
+        self.tree_epoch = 0
         self.closed = False
         self.snaps = {}                     # snap id -> (static, model)
         self.snap_of_root = set()
@@ -334,6 +335,16 @@ class Interp:
                 tgt.obj.clear()
                 self.model_clear(st.target)
                 self.probes['clear_from_inside_a_load'] += 1
+            v = object()
+        elif st.vcode == 'setter':
+            # this load rearranges the tree (first time only): one of the
+            # maps on the way to this very handle is replaced by a new one
+            if st.completed == 0 and getattr(st, 'setspec', None):
+                key, spec = st.setspec
+                self.probes['tree_rearranged_from_inside_a_load'] += 1
+                self.faults['set_from_inside_a_load'] += 1
+                self.tree_epoch += 1
+                self.do_set(self.root, key, spec)
             v = object()
         elif st.vcode == 'via':
             v = self.nested_load(st)
@@ -506,6 +517,7 @@ class Interp:
             st = HState(hid, spec.get('val', 'obj'), spec.get('fails', []))
             st.via = spec.get('via')
             st.target = spec.get('target')
+            st.setspec = spec.get('set')
             st.wrap = bool(spec.get('wrap'))
             if st.vcode == 'fileworld':
                 st.obj = self.file_handle(hid)
@@ -680,6 +692,23 @@ class Interp:
         if target is None or target.obj is None:
             return 'skip'
         self.do_layer(target)
+
+    def op_unlayer(self, op):
+        """The top handle layer of a map is taken off again (the scope that
+        a nesting population opened is closed): what it shadowed is visible
+        once more."""
+        target = self.resolve(op[1])
+        if target is None or target.obj is None or len(target.layers) < 2:
+            return 'skip'
+        how = op[2] if len(op) > 2 else 'pop'
+        if how == 'parents':
+            target.obj.handles = target.obj.handles.parents
+        else:
+            target.obj.handles.maps.pop(0)
+        gone = target.layers.pop(0)
+        for hid in gone.values():
+            self.h[hid].aliased = True      # (its back-link is stale now)
+        self.probes['handle_layer_taken_off'] += 1
 
     def op_clear(self, op):
         target = self.resolve(op[1])
@@ -983,14 +1012,21 @@ class Interp:
 
     # ---- sweep (C11): structure, back-links, every query path
     def sweep(self):
-        try:
-            with kernel.budget(OP_BUDGET * 4):
-                self.compare(self.root.obj, self.root, [])
-                self.queries(self.root, [])
-        except Violation:
-            raise
-        except SimHang as e:
-            self.fail('C11', 'hang', f'query: {e}')
+        for attempt in range(6):
+            epoch = self.tree_epoch
+            try:
+                with kernel.budget(OP_BUDGET * 4):
+                    self.compare(self.root.obj, self.root, [])
+                    self.queries(self.root, [])
+            except Violation:
+                if self.tree_epoch != epoch:
+                    continue    # a load of this very sweep rearranged the
+                                # tree under it: judge the new tree afresh
+                raise
+            except SimHang as e:
+                self.fail('C11', 'hang', f'query: {e}')
+            if self.tree_epoch == epoch:
+                break
         if self.root.obj.parent is not None:
             self.fail('C11', 'backlink', 'the root map has a parent')
 
@@ -1173,7 +1209,8 @@ WEIGHTS = {
                 clear_handle=1.6, loop_switch=.8, snap=.7, snap_check=1.2,
                 touch=.5),
     'C17': dict(set=4.5, clear=.5, layer=1, call=.5, getitem=.3,
-                clear_handle=.5, snap=2, snap_check=2, detour=.25),
+                clear_handle=.5, snap=2, snap_check=2, detour=.25,
+                unlayer=.5),
 }
 
 
@@ -1312,8 +1349,16 @@ def generate(prop, run_seed, tier='quick', tolerate=frozenset()):
             full = list(mpath) + keyparts
             for i in range(1, len(keyparts)):
                 gs.mpaths.append(list(mpath) + keyparts[:i])
-            ops.append(['set', mpath, SPLIT.join(keyparts),
-                        gs.valspec(0, full)])
+            vs = gs.valspec(0, full)
+            if (prop == 'C11' and vs.get('kind') == 'handle'
+                    and vs.get('val') == 'obj' and len(full) >= 2
+                    and not vs.get('wrap') and rng.random() < .08):
+                j = rng.randrange(len(full) - 1)
+                vs['val'] = 'setter'
+                vs['set'] = [SPLIT.join(full[:j + 1]), {
+                    'kind': 'map', 'id': f'm{gs.new_id()}', 'children': [
+                        [SPLIT.join(full[j + 1:]), gs.handle_spec()]]}]
+            ops.append(['set', mpath, SPLIT.join(keyparts), vs])
         elif kind in ('clear', 'layer'):
             ops.append([kind, mpath])
         elif kind in ('call', 'clear_handle') and gs.hids:
@@ -1327,6 +1372,8 @@ def generate(prop, run_seed, tier='quick', tolerate=frozenset()):
             ops.append(['touch', rng.choice(gs.fileworlds)])
         elif kind == 'detour' and mpath:
             ops.append(['detour', mpath])
+        elif kind == 'unlayer':
+            ops.append(['unlayer', mpath, rng.choice(['pop', 'parents'])])
         elif kind == 'snap':
             gs.snaps += 1
             ops.append(['snap', gs.snaps, mpath if rng.random() < .5 else []])
